@@ -45,7 +45,7 @@ CHECKS = {
          "rayon itself is trusted (each for_each item runs exactly once); loom sees the model's atomics and the per-row cells, not plain accesses to other memory; loom's limit of 5 threads per execution bounds workers x regions.",
          "DESIGN.md §4 C08, §2.4"),
  "C09": ("explicit-state search (stateright BFS) over Resizer histories whose states hold the real Resizer; every transition runs the real operation on the reused and on a fresh Resizer",
-         "State = real Resizer (deduplicated on its Debug rendering: back-end + full contents of the three scratch buffers, plus depth); 176 actions (8 pixel types of pixel size 1..16 and alignment 1/2/4, 4 geometries, 4 algorithms, alpha, fractional crops, erroring calls, reset_internal_buffers, clone, back-end switches) explored exhaustively to depth 2/3 and a 39-action sub-alphabet to depth 3/4; each transition compares result value and destination bytes with Resizer::new(); the search is run twice and the state/transition counts must agree. Later additions: 240 actions incl. sprites with long zero runs, alpha-aware up-scales of interior crop boxes, size ladders of the three scratch buffers (deeper ladder search); states are rebuilt by replaying the action path on one live Resizer; each search runs in a child process so that a memory-corrupting change ends in a crash verdict.",
+         "State = real Resizer (deduplicated on its Debug rendering: back-end + full contents of the three scratch buffers, plus depth); 176 actions (8 pixel types of pixel size 1..16 and alignment 1/2/4, 4 geometries, 4 algorithms, alpha, fractional crops, erroring calls, reset_internal_buffers, clone, back-end switches) explored exhaustively to depth 2/3 and a 39-action sub-alphabet to depth 3/4; each transition compares result value and destination bytes with Resizer::new(); the search is run twice and the state/transition counts must agree. Later additions: ~270 actions incl. sprites with long zero runs, alpha-aware up-scales of interior crop boxes, equally sized tiles at three crop origins, a full-range 16-bit alpha resize, all-0xFF images, SuperSampling from a CroppedImage, size ladders of the three scratch buffers (deeper ladder search); states are rebuilt by replaying the action path on one live Resizer; each search runs in a child process so that a memory-corrupting change ends in a crash verdict.",
          "Depth-bounded; the alphabet of geometries and contents is finite and fixed; allocator behaviour (alignment of the scratch Vec) is the system allocator's here and adversarial in C03.",
          "DESIGN.md §4 C09, §2.3"),
  "C10": ("exact invariant check on the implementation's own integer coefficient tables for every geometry (model level, decides all component values), bound to the code by bounded-exhaustive direct resizes of uniform images",
